@@ -889,6 +889,40 @@ def symbolic_comprehension(R, E, spec, gen, sub, elt, node):
     return seq
 
 
+def filtered_comprehension(R, E, spec, gen, sub, elt, node):
+    """[f(x) for x in <symbolic-length seq> if c(x)] : the selected positions are those of the boolean mask k -> c(item(k)); the
+    result is the lazy sequence t -> f(item(unrank(t))) of length count (ghost rank / unrank / count of the mask, as for numpy masks)"""
+    from .engine import SymSeq, Frame
+
+    def cond_at(k):
+        fr = Frame(sub.func, sub.module, parent=sub.parent)
+        fr.localnames = set()
+        E.assign(gen.target, spec.item(k), fr)
+        c = None
+        for test in gen.ifs:
+            v = E.eval(test, fr)
+            if isinstance(v, bool):
+                v = z3.BoolVal(v)
+            if not (is_sym(v) and z3.is_bool(v)):
+                raise Unsupported("filter of a symbolic comprehension is not a plain boolean expression")
+            c = v if c is None else z3.And(c, v)
+        return c
+    k = z3.Int(fresh_name("fk"))
+    body = E.side_eval(z3.And(k >= 0, k < z(spec.length)), lambda: cond_at(k))     # the filter is only evaluated at positions of the sequence
+    mask = NdArr((spec.length,), Cell(z3.Lambda([k], body), 1, name="filter"), kind="bool")
+    fm, n, K, rank, unrank = R.mask_info(E, mask)
+
+    def g(t):
+        fr = Frame(sub.func, sub.module, parent=sub.parent)
+        fr.localnames = set()
+        E.assign(gen.target, spec.item(unrank(t)), fr)
+        return elt(fr)
+    seq = SymSeq(K, g)
+    seq.filter_of = (mask, rank, unrank)
+    E.generic_element_check(seq, node)
+    return seq
+
+
 # ----------------------------------------------------------------------------- builtins
 def install(R):
     from .registry import RangeVal, EnumVal, ZipVal, TypeTag, ExcClass
